@@ -187,6 +187,25 @@ func (w *world) exec(line string) string {
 		from, to := w.nodes[t[1][0]-'0'], w.nodes[t[2][0]-'0']
 		to.d.MergeRemoteState(from.d.LocalState(true), true)
 		return to.dump()
+	case "pushpull":
+		// the PERIODIC push/pull of memberlist (join=false): what keeps two connected members equal when a gossip
+		// packet was lost.  memberlist skips MergeRemoteState when the remote user state is empty.
+		from, to := w.nodes[t[1][0]-'0'], w.nodes[t[2][0]-'0']
+		if b := from.d.LocalState(false); len(b) > 0 {
+			to.d.MergeRemoteState(b, false)
+		}
+		return to.dump()
+	case "lose":
+		// every update queued for gossip at A is transmitted into the void (packet loss): the queue is emptied, B sees nothing
+		g := 0
+		for {
+			msgs := w.nodes[0].d.GetBroadcasts(0, 1<<20)
+			if len(msgs) == 0 {
+				break
+			}
+			g += len(msgs)
+		}
+		return fmt.Sprintf("lost=%d", g)
 	case "bcast":
 		pad, _ := strconv.Atoi(t[3])
 		data := payloadBytes(t[2], pad)
@@ -364,7 +383,11 @@ func runCase(t *testing.T, tr *hx.Trace, id int, r *rand.Rand, script []string) 
 				}
 				do(fmt.Sprintf("mergefull %d %s", node, strings.Join(ps, ";")))
 			case x < 13:
-				do(fmt.Sprintf("exchange %d %d", node, 1-node))
+				if r.IntN(2) == 0 {
+					do(fmt.Sprintf("exchange %d %d", node, 1-node))
+				} else {
+					do(fmt.Sprintf("pushpull %d %d", node, 1-node))
+				}
 			case x < 17:
 				pad := []int{0, 0, 600, 670 + r.IntN(31), 670 + r.IntN(31), 670 + r.IntN(31), 675 + r.IntN(12), 700, 800, 2000}[r.IntN(10)]
 				p := genPayload()
@@ -377,6 +400,15 @@ func runCase(t *testing.T, tr *hx.Trace, id int, r *rand.Rand, script []string) 
 			default:
 				do("deliver")
 			}
+		}
+		if !flood && r.IntN(5) == 0 {
+			// an update A holds and gossips, the packet is lost, B stays connected: only the periodic exchange repairs it
+			v := 6 + r.IntN(4)
+			id := hx.Pick(r, ids)
+			do(fmt.Sprintf("notify 0 part sil e:%s=%d", id, v))
+			do(fmt.Sprintf("bcast sil e:%s=%d 0", id, v))
+			do("lose")
+			do("pushpull 0 1")
 		}
 		if flood && npeers > 0 {
 			do("hold 1")
